@@ -259,18 +259,34 @@ def small_crosscheck(ctx, step):
     sb = SM.get_sequence_based()
     if (sb.max_vehicles, sb.max_sequence_length) != (V, L) or SM.get_high_cost() != high:
         problems.append(f"sequence sizes / high cost {(sb.max_vehicles, sb.max_sequence_length, SM.get_high_cost())} != {(V, L, high)}")
-    if not problems:
-        Q, k = pb.get_qubo(feasibility=False, penalty_parameter=None)
-        Qd = Q.toarray() if hasattr(Q, "toarray") else np.asarray(Q)
-        n = Qd.shape[0]
-        best = min(float(np.array(x) @ Qd @ np.array(x) + k) for x in itertools.product((0, 1), repeat=n))
-        ctx.count(evaluations=2 ** n)
-        if best != 5.0:
-            problems.append(f"minimum of the default-penalty QUBO of examples.small.get_path_based() is {best}, the optimum proved for the "
-                            f"generated call list (C08_small_gen_optimum; the value test_small.py hard-codes) is 5")
-    ctx.cov["small_crosscheck"] = {"nodes": want_nodes, "arcs": len(want_arcs), "routes": len(want_routes), "problems": problems}
+    # C08 on this instance, judged independently of the generated model: the exhaustive minimum of the real default-penalty
+    # QUBO of get_path_based() against the reference route-partition optimum of the real get_vrptw() -- when the listed
+    # routes are all its valid routes and capacity does not bind (otherwise the clause does not speak about this pool)
+    qubo_problem = None
+    try:
+        inst = ref.Instance.of_graph(g)
+        all_routes = ref.all_valid_routes(inst)
+        if not ref.capacity_binding(inst) and sorted(tuple(r[0]) for r in all_routes) == sorted(tuple(r) for r in got_routes) \
+                and 0 < pb.get_num_variables() <= 16:
+            feas, opt, _w = ref.best_partition(inst, all_routes)
+            if feas:
+                best, _x = qubo_min(pb)
+                ctx.count(evaluations=2 ** int(pb.get_num_variables()))
+                if best != opt:
+                    qubo_problem = (f"minimum of the default-penalty QUBO of examples.small.get_path_based() is {best}, the optimal "
+                                    f"route-partition cost of examples.small.get_vrptw() is {opt}")
+    except Exception as e:  # noqa
+        qubo_problem = f"the default-penalty QUBO of examples.small.get_path_based() could not be minimised: {type(e).__name__}: {e}"
+    ctx.cov["small_crosscheck"] = {"nodes": want_nodes, "arcs": len(want_arcs), "routes": len(want_routes),
+                                   "tie_problems": problems, "qubo_problem": qubo_problem}
+    # a difference between the generated call list and what the real builders store is a broken TIE (the theorems of
+    # C08_small_gen are then not about the code as it runs): deferred, reported as no-failing-input-found unless the run finds
+    # a concrete violation
     for msg in problems:
-        ctx.violation("oracle/small-example", "examples/small.py: " + msg, {"python": "props.c08.small_crosscheck"}, True)
+        ctx.defer_violation("generated/small/crosscheck", "examples/small.py: " + msg + " -- the theorems of genprops/C08_small_gen.v "
+                            "are not established for the code as it runs", {"python": "props.c08.small_crosscheck"})
+    if qubo_problem:
+        ctx.violation("oracle/small-example", "examples/small.py: " + qubo_problem, {"python": "props.c08.small_crosscheck"}, True)
 
 
 def run(ctx):
